@@ -397,7 +397,8 @@ class DataFlow:
         return any(r[0] == "call" and callee_pred(r[1]) for r in self.roots(expr, at))
 
 
-def dataflow_of(funcinfo, _cache={}):
+def dataflow_of(funcinfo):
+    _cache = funcinfo.module.__dict__.setdefault("_dataflow_cache", {})
     key = id(funcinfo.node)
     d = _cache.get(key)
     if d is None or d.f.node is not funcinfo.node:
